@@ -329,6 +329,17 @@ func init() {
 		// into the primary's pool are not written again
 		ruleRetain(r)
 		rulePublishedBytes(r)
+		// the collectors' single-threadedness (roots IGc/PGc are not self-concurrent) is itself checked
+		tmp := newReport(r.E, r.Property)
+		ruleGoHandshake(tmp)
+		for _, o := range tmp.Obls {
+			if strings.Contains(o.Key, "one-cycle-at-a-time") || strings.Contains(o.Key, "spawn-once") {
+				o.Rule = "single-cycle"
+				o.Key = "single-cycle" + strings.TrimPrefix(o.Key, "go-handshake")
+				r.Obls = append(r.Obls, o)
+			}
+		}
+		r.Min("single-cycle", 2)
 		if os.Getenv("STHLINT_TIER") == "thorough" {
 			extendedRootsInfo(r)
 		}
